@@ -409,10 +409,12 @@ def run_check(spec, argv):
         # search: the model/implementation tie or a proof is broken; look for a concrete input on
         # which the property itself fails (the driver evaluates the property predicate on the
         # implementation's output whenever the acceptor rejects).
-        for k in range(spec.get("search_rounds", 3)):
+        mutation_run = REPO != "/repo"      # integrator's experiment: one short search round is enough
+        for k in range(1 if mutation_run else spec.get("search_rounds", 3)):
             sf = os.path.join(WORK, f"{run_tag}.search{k}.cases")
-            rc, out = sh(f"{binpath} --seed {seed * 7919 + 104729 * (k + 1)} --n {spec.get('search_n', spec['sizes']['thorough'])} "
-                         f"--tier thorough --out {sf} " + spec.get("extra_runner_args", ""), timeout=3000)
+            sn = spec["sizes"]["quick"] if mutation_run else spec.get("search_n", spec["sizes"]["thorough"])
+            rc, out = sh(f"{binpath} --seed {seed * 7919 + 104729 * (k + 1)} --n {sn} "
+                         f"--tier {'quick' if mutation_run else 'thorough'} --out {sf} " + spec.get("extra_runner_args", ""), timeout=3000)
             if rc != 0:
                 break
             sl, sv = run_driver(pid, sf)
